@@ -110,3 +110,8 @@ PROPS['C08'] = dict(
     unit_modules=[], driver_modules=['drivers.c08'], level='other',
     level_text='tbd', level_note='tbd', assumptions=COMMON_ASSUMPTIONS,
 )
+
+PROPS['C13'] = dict(
+    unit_modules=[], driver_modules=['drivers.c13'], level='other',
+    level_text='tbd', level_note='tbd', assumptions=COMMON_ASSUMPTIONS,
+)
